@@ -319,7 +319,7 @@ def run(ctx):
     for server in ("multiplex", "thread"):
         for lab, phase, ending in (("garbage.interrupt", "after-handshake", "close"), ("I.trunc@-1", "after-handshake", "reset")) + (() if ctx.quick else (("garbage.interrupt", "first", "close"), ("C.trunc@39", "first", "reset"), ("I.raises-unserialisable", "after-handshake", "close"))):
             cfgs.append({"server": server, "timeout": 0.0, "pool": "roomy", "stream": lab, "phase": phase, "ending": ending, "witness_reconnects": True,
-                         "p": 1, "r": 1 if (ctx.quick or server == "thread") else 2, "horizon": 4000})
+                         "p": 1, "r": 1, "horizon": 4000})
     # the process runs out of descriptors for a while: accept() fails 3 / 8 / 20 times in a row while connections are pending
     for server in ("multiplex", "thread"):
         for nf in (3, 8, 20):
